@@ -217,6 +217,13 @@ def fault_signature(job):
 
 def judge(ctx, job, impl, model, report, scans, pydec):
     rp = job.replay()
+    if impl == 'skipped':
+        ctx.count('skipped_after_timeouts')
+        return None
+    if impl == 'timeout':
+        ctx.violation('C07/does-not-terminate', 'OnData did not return within 10 s (capacity %d, mode %s)' % (job.cap, job.mode), rp)
+        ctx.disagree('implementation did not terminate, model answered %s' % model[:120], rp)
+        return None
     if impl == 'fault':
         rp['sanitizer'] = report
         first = next((l for l in (report or '').split('\n') if 'ERROR' in l or 'runtime error' in l), '')[:200]
@@ -309,7 +316,7 @@ def run_jobs(ctx, exe, jobs, py_fraction=1.0):
     need = {}
     for j, a in zip(jobs, impl):
         ce = None
-        if a != 'fault' and a.startswith('init|'):
+        if a.startswith('init|'):
             ce = int(a.split(';')[0].split('|')[2])
         if ce is None:
             continue
@@ -323,7 +330,7 @@ def run_jobs(ctx, exe, jobs, py_fraction=1.0):
     for idx, (j, a, m) in enumerate(zip(jobs, impl, model)):
         py = None
         noreset = all(o is not None for o in j.ops)
-        if noreset and a != 'fault' and a.startswith('init|1|'):
+        if noreset and a.startswith('init|1|'):
             ce = int(a.split(';')[0].split('|')[2])
             key = (ce, j.data)
             if key not in pycache and (len(pycache) < 40 or ctx.rng.random() < py_fraction):
